@@ -4,7 +4,7 @@ CFG = {
     "gens": ["C14"],
     "feature": "c14",
     "rule": (
-        "eight case kinds: c14:b64 (OptAttr::decode_base64 into arrays of 21 sizes: valid text of every length around the bound, padded / "
+        "nine case kinds: c14:b64 (OptAttr::decode_base64 into arrays of 21 sizes: valid text of every length around the bound, padded / "
         "non-url-safe / over-long / dangling-character / trailing-bit / foreign-character variants, random alphabet strings); "
         "c14:jwk and c14:parse (for each of the 16 algorithms a random key exported by the real code, then: both canonical forms, up to "
         "24 (thorough: all) member permutations, random whitespace, unknown members of 16 JSON value shapes in every position, known-but-ignored "
@@ -27,6 +27,11 @@ CFG = {
         "their public halves as bytes and as JWK, the 8 small-order points in canonical and non-canonical spellings, every non-canonical "
         "y = p..2^255-1 with both sign bits, small y, 40 random 32-byte strings; BLS G1G2->G1/G2 for keys made from seeds, their public halves, "
         "boundary scalars). "
+        "Third wave (round-2 coverage row 5): for every algorithm each string-valued member (kty, crv, x, y, d, k, alg, an added kid) with a value "
+        "of every other JSON type (number, bool, null, array of strings, object; plus 5 more shapes sampled) as c14:jwk + c14:parse (expected: "
+        "Invalid, never another kind); c14:typed (each of the 8 concrete key types' own from_jwk given the secret and public JWK of a key of each "
+        "of the 16 algorithms — own: same key, foreign: InvalidKeyData —, its own JWK with 6 other kty values, every other crv, kty / crv missing, "
+        "non-string kty / crv, non-JSON text); every key summary carries public_bytes_length / secret_bytes_length, compared with the produced lengths. "
         "Every accepted key is exported in all forms and re-imported by the oracle. non-trivial = an import that reached the key-material "
         "checks (a key was accepted, or the error is InvalidKeyData, or the outcome is a panic) or a base64 / parse case with a non-empty "
         "input; distinct = hash of the case"
@@ -66,6 +71,8 @@ def nontrivial(rec):
     kind = case.get("kind", "")
     if kind in ("c14:b64", "c14:parse"):
         return len(case.get("hex", "")) > 0
+    if kind == "c14:typed":    # the type's own from_jwk_parts ran (a key, or its InvalidKeyData), or a panic
+        return isinstance(out, dict) and ("alg" in out or out.get("err") in ("InvalidKeyData", "Panic"))
     if kind == "c14:enc":      # the encoder ran to the end and the text was parsed back (or refused) by the library's parser
         return isinstance(out, dict) and "text" in out
     if kind == "c14:keypair":  # right total length (the halves were looked at), or the public-only export
